@@ -377,9 +377,8 @@ func vCompareC53(a, b *vStoredC53, got *vDiffOutC53, metadata bool) (dev string,
 		other++
 		devs = append(devs, fmt.Sprintf("statistics: changed=%d added=%+v removed=%+v, the listed lines give changed=%d added=%+v removed=%+v", gs.ChangedFiles, gs.Added, gs.Removed, changed, add, rem))
 	}
-	// blob statistics: blobs referenced by exactly one of the two trees (only defined here
-	// when no directory was replaced by a non-directory: see the known finding)
-	if nDirTypeChange == 0 {
+	// blob statistics: blobs referenced by exactly one of the two trees
+	{
 		setDiff := func(x, y map[restic.ID]uint) (n int, bytes uint64) {
 			for id, sz := range x {
 				if _, ok := y[id]; !ok {
@@ -921,6 +920,30 @@ func TestVerifC53TypeChangeProbe(t *testing.T) {
 		}
 		dev, knownShape, _ := vCompareC53(a, b, got, false)
 		st.Case("probe"+dir[0], "probe")
+		// literal expectation, independent of the reference diff
+		sign := "-"
+		if dir[0] == idB {
+			sign = "+"
+		}
+		literal := map[string]string{"/d": "T", "/d/x": sign, "/d/sub": sign, "/d/sub/y": sign}
+		if dev == "" {
+			if len(got.Lines) != len(literal) {
+				t.Fatalf("probe: reported %v, want %v", vSortedLinesC53(got.Lines), literal)
+			}
+			for p, m := range literal {
+				if got.Lines[p] != m {
+					t.Fatalf("probe: %q reported as %q, want %q (all lines: %v)", p, got.Lines[p], m, vSortedLinesC53(got.Lines))
+				}
+			}
+			gs := got.Stats
+			files, dirs := gs.Removed.Files, gs.Removed.Dirs
+			if sign == "+" {
+				files, dirs = gs.Added.Files, gs.Added.Dirs
+			}
+			if files != 2 || dirs != 1 || gs.ChangedFiles != 0 {
+				t.Fatalf("probe: statistics %+v, want 2 files and 1 dir %s", gs, sign)
+			}
+		}
 		switch {
 		case dev == "":
 			st.Class("probe=descendants-listed")
